@@ -586,6 +586,17 @@ func (am *AccountingManager) pendingRecordProcessor() {
 func (am *AccountingManager) processPendingRecord(record *PendingAcctRecord) {
 	verifCrashPoint("proc.begin")
 	defer verifCrashPoint("proc.end")
+
+	// A record is reachable both through the queue channel and through the retry
+	// scan. Once one of the two has delivered (or abandoned) it, the other must not
+	// transmit it again: the server has already acknowledged it.
+	am.pendingMu.RLock()
+	_, stillPending := am.pendingRecords[record.ID]
+	am.pendingMu.RUnlock()
+	if !stillPending {
+		return
+	}
+
 	ctx, cancel := context.WithTimeout(am.ctx, 5*time.Second)
 	defer cancel()
 
